@@ -25,7 +25,7 @@ static inline bool znz(mpz_srcptr z) { return z->_mp_size != 0; }
 static inline bool zsmall(mpz_srcptr z, size_t l) { return zl(z) <= l; }
 static inline bool qnz(mpq_srcptr q) { return q->_mp_num._mp_size != 0; }
 static inline bool fnz(mpf_srcptr f) { return f->_mp_size != 0; }
-static inline uint64_t bc(const Args& a, uint64_t m) { return a.u[1] % m; }           // a bit count / small exponent
+static inline uint64_t bc(const Args& a, uint64_t m) { if ((a.base & 0x30) == 0x30) { static const uint64_t B[8] = {0, 1, 63, 64, 65, 127, 128, 0}; uint64_t v = (a.u[2] % 8 == 7) ? m - 1 : B[a.u[2] % 8]; return v % m; } return a.u[1] % m; }   // a bit count / small exponent; a quarter of the time a boundary value (0, 1, 63..65, 127, 128, m-1)
 static inline int nbase(const Args& a) { return 2 + (int)((unsigned)a.base % 61); }     // 2..62
 static inline int nbase36(const Args& a) { return 2 + (int)((unsigned)a.base % 35); }   // 2..36
 static inline int asprintf_width(const Args& a) { static const int W[6] = {255, 256, 257, 511, 512, 513}; return (a.base & 1) ? W[a.u[2] % 6] : (int)(a.u[2] % 600); }   // around the internal buffer sizes of the printf code
